@@ -223,6 +223,7 @@ def run(scn, st):
         if not r.ok:
             g = None
     acked = {}      # tag -> (python value, expected datatype, representable)
+    mydt = {}       # the harness's own record of declared datatypes (forgotten when the tag is deleted)
     for n, op in enumerate(scn["ops"]):
         st.step()
         st.count("op." + op["op"])
@@ -236,15 +237,13 @@ def run(scn, st):
                     declared = op["dtype"]
                     st.count("probe.declared_datatype")
             if declared is None:
-                prev = acked.get(tag)
-                # an existing tag keeps its datatype
-                cur = core.call(line.get_datatype, tag)
-                declared_now = cur.value if (cur.ok and cur.value is not None) else None
-                dt = declared_now or default_dtype(x)
-                if declared_now is None:
+                # an existing (or declared) tag keeps its datatype; a deleted tag starts afresh
+                dt = mydt.get(tag) or default_dtype(x)
+                if tag not in mydt:
                     st.count("probe.default_datatype")
             else:
                 dt = declared
+                mydt[tag] = declared
             rep = representable(x, dt) if dt else None
             if tag in acked:
                 st.count("probe.overwrite_same_tag")
@@ -271,9 +270,16 @@ def run(scn, st):
                     acked[tag] = (acked[tag][0], declared, None)
                 continue
             acked[tag] = (x, dt, rep)
+            if dt:
+                mydt[tag] = dt
         elif op["op"] == "delete":
+            had = core.call(line.get, op["tag"])
             core.call(line.delete, op["tag"])
             acked.pop(op["tag"], None)
+            if not (had.ok and had.value is None):
+                # delete() removes an *existing* tag (and forgets its datatype); a datatype declared for
+                # a tag which has no value yet stays declared, as documented for set_datatype
+                mydt.pop(op["tag"], None)
         elif op["op"] == "other_edit":
             st.count("probe.interleaved_edit")
             core.call(line.set, op["tag"], op["value"])
